@@ -136,3 +136,24 @@ Print Assumptions C03_code_control_dtc_setting_interpret.
 Theorem C03_code_tester_present_interpret : forall d r, d <> [] -> p_data r = d -> fn_tester_present_interpret d = tp_interpret r.
 Proof. exact tie_tester_present_interpret. Qed.
 Print Assumptions C03_code_tester_present_interpret.
+
+(* ---- the code is the model: write_memory_by_address with explicit formats and the server's echo (tools/symtrans.py, Gen/Fn_MemoryEcho.v) ---- *)
+From UDS Require Import Gen.Fn_MemoryEcho Model.Svc_Memory Proofs.Tie_simple_common Proofs.Tie_memory_echo.
+Theorem C03_code_write_memory_request_16_8 : forall cfg a s data, no_server_formats cfg ->
+  fn_write_memory_request_16_8 a s data = payload_of (wmba_make cfg a s (Some 16) (Some 8) data).
+Proof. exact tie_write_memory_request_16_8. Qed.
+Print Assumptions C03_code_write_memory_request_16_8.
+Theorem C03_code_write_memory_echo_16_8 : forall cfg a s data d r p, no_server_formats cfg ->
+  fn_write_memory_request_16_8 a s data = inr p -> d <> [] -> (List.length d < 6)%nat -> p_data r = d ->
+  fn_write_memory_interpret_16_8 a s data d = wmba_interpret cfg a s (Some 16) (Some 8) r.
+Proof. exact tie_write_memory_interpret_16_8. Qed.
+Print Assumptions C03_code_write_memory_echo_16_8.
+Theorem C03_code_write_memory_request_64_64 : forall cfg a s data, no_server_formats cfg ->
+  fn_write_memory_request_64_64 a s data = payload_of (wmba_make cfg a s (Some 64) (Some 64) data).
+Proof. exact tie_write_memory_request_64_64. Qed.
+Print Assumptions C03_code_write_memory_request_64_64.
+Theorem C03_code_write_memory_echo_64_64 : forall cfg a s data d r p, no_server_formats cfg ->
+  fn_write_memory_request_64_64 a s data = inr p -> (17 <= List.length d < 19)%nat -> p_data r = d ->
+  fn_write_memory_interpret_64_64 a s data d = wmba_interpret cfg a s (Some 64) (Some 64) r.
+Proof. exact tie_write_memory_interpret_64_64. Qed.
+Print Assumptions C03_code_write_memory_echo_64_64.
